@@ -326,7 +326,7 @@ func wellFormed(t []string) bool {
 	switch t[0] {
 	case "rp":
 		return len(t) == 5 && isName(t[1]) && isName(t[2]) && isInt(t[3]) && (t[4] == "0" || t[4] == "1")
-	case "csg", "find":
+	case "csg", "find", "sgd":
 		return len(t) == 4 && isInt(t[3])
 	case "ms":
 		return len(t) == 5 && (t[3] == "-" || isInt(t[3])) && isList(t[4], isInt)
@@ -377,6 +377,18 @@ func (r *Runner) Op(t []string) string {
 			rpi, _ := d.RetentionPolicy(db, rp)
 			rpi.ShardGroupDuration = sgd
 		}
+		r.setData(&d)
+		return "ok"
+	case t[0] == "sgd" && len(t) == 4:
+		d := r.c.Data()
+		rpi, err := d.RetentionPolicy(t[1], t[2])
+		if err != nil {
+			return errEnum(err)
+		}
+		if rpi == nil {
+			return "err:rp-not-found"
+		}
+		rpi.ShardGroupDuration = time.Duration(h.Atoi(t[3]))
 		r.setData(&d)
 		return "ok"
 	case t[0] == "csg" && len(t) == 4:
